@@ -1,14 +1,14 @@
 (* Props/C14.v — Tagfilter neutralises exactly the disallowed raw HTML tags.
    Only pinned statements.  `tagfilter`, `tagfilter_block`, `html_block_payload`,
-   `html_inline_payload` are the models of Model/Tagfilter.v (blacklist and ctype table regenerated
-   from /repo/src on every run, bodies pinned by the translator item `tagfilter`).
+   `html_inline_payload` are the models of Model/Tagfilter.v (blacklist and the byte set that ends a
+   tag name regenerated from /repo/src on every run, bodies pinned by the translator item `tagfilter`).
    `disallowed_at`, `gfm_filter` are the GFM reading of Spec/GfmFilter.v (a tag name is ended by one of
-   the six GFM whitespace characters, GT, or SLASH GT); `disallowed_at_narrow`, `gfm_filter_narrow` are the
-   same definitions with whitespace = space, tab, LF, CR.
+   the six GFM whitespace characters, GT, or SLASH GT).
 
-   Result on the unchanged tree: the code implements the NARROW reading exactly and totally
-   (C14_tagfilter_exact, C14_tagfilter_block_exact); the GFM reading is refuted by LT title FF GT
-   (known finding tagfilter_vt_ff) and holds for every input without line tabulation / form feed. *)
+   Result: the code implements the GFM reading exactly and totally (C14_tagfilter_spec,
+   C14_tagfilter_block_spec), for every byte string.  Before the repair of finding C14-a
+   (tagfilter_vt_ff: the name was ended by space, tab, LF, CR only) both statements were refuted by
+   LT title FF GT; that witness is replayed below. *)
 From Coq Require Import List NArith Bool.
 From V Require Import Base.Bytes Base.Res Model.Tagfilter Spec.GfmFilter Proofs.TagfilterProofs.
 Import ListNotations.
@@ -35,34 +35,14 @@ Theorem C14_inline_node_total : forall escape_ unsafe_ tagfilter_ lit,
 Proof. exact inline_payload_total. Qed.
 Print Assumptions C14_inline_node_total.
 
-(* ---- what the code computes, exactly *)
-Theorem C14_tagfilter_exact : forall s, tagfilter s = Ok (disallowed_at_narrow s).
-Proof. exact tagfilter_exact. Qed.
-Print Assumptions C14_tagfilter_exact.
+(* ---- what the code computes, exactly: the GFM reading, for all inputs *)
+Theorem C14_tagfilter_spec : forall s, tagfilter s = Ok (disallowed_at s).
+Proof. exact tagfilter_spec. Qed.
+Print Assumptions C14_tagfilter_spec.
 
-Theorem C14_tagfilter_block_exact : forall s, tagfilter_block s = Ok (gfm_filter_narrow s).
-Proof. exact tagfilter_block_exact. Qed.
-Print Assumptions C14_tagfilter_block_exact.
-
-(* ---- against the GFM reading: full statements, refutation, partial theorems *)
-Definition C14_tagfilter_spec_full_statement : Prop := forall s, tagfilter s = Ok (disallowed_at s).
-Definition C14_tagfilter_block_spec_full_statement : Prop := forall s, tagfilter_block s = Ok (gfm_filter s).
-
-Theorem C14_tagfilter_spec_refuted : ~ C14_tagfilter_spec_full_statement.
-Proof. exact tagfilter_spec_refuted. Qed.
-Print Assumptions C14_tagfilter_spec_refuted.
-
-Theorem C14_tagfilter_block_spec_refuted : ~ C14_tagfilter_block_spec_full_statement.
-Proof. exact tagfilter_block_spec_refuted. Qed.
-Print Assumptions C14_tagfilter_block_spec_refuted.
-
-Theorem C14_tagfilter_spec_partial : forall s, no_vt_ff s = true -> tagfilter s = Ok (disallowed_at s).
-Proof. exact tagfilter_spec_partial. Qed.
-Print Assumptions C14_tagfilter_spec_partial.
-
-Theorem C14_tagfilter_block_spec_partial : forall s, no_vt_ff s = true -> tagfilter_block s = Ok (gfm_filter s).
-Proof. exact tagfilter_block_spec_partial. Qed.
-Print Assumptions C14_tagfilter_block_spec_partial.
+Theorem C14_tagfilter_block_spec : forall s, tagfilter_block s = Ok (gfm_filter s).
+Proof. exact tagfilter_block_spec. Qed.
+Print Assumptions C14_tagfilter_block_spec.
 
 (* the code never rewrites anything but the LT of a GFM-disallowed tag *)
 Theorem C14_tagfilter_sound : forall s, tagfilter s = Ok true -> disallowed_at s = true.
@@ -71,16 +51,11 @@ Print Assumptions C14_tagfilter_sound.
 
 (* ---- nothing else is altered: the filter output is the input with the entity substituted exactly at
    the positions where a disallowed tag begins, and such a position always holds LT
-   (both readings; the code's output is gfm_filter_narrow by C14_tagfilter_block_exact) *)
+   (the code's output is gfm_filter by C14_tagfilter_block_spec) *)
 Theorem C14_filter_only_lt : forall s,
   gfm_filter s = subst_lt_at (fun i => disallowed_at (skipn i s)) s.
 Proof. exact (filter_only_lt_ws gfm_ws). Qed.
 Print Assumptions C14_filter_only_lt.
-
-Theorem C14_filter_only_lt_narrow : forall s,
-  gfm_filter_narrow s = subst_lt_at (fun i => disallowed_at_narrow (skipn i s)) s.
-Proof. exact (filter_only_lt_ws narrow_ws). Qed.
-Print Assumptions C14_filter_only_lt_narrow.
 
 Theorem C14_disallowed_is_lt : forall s, disallowed_at s = true -> exists r, s = x3c :: r.
 Proof. exact (disallowed_lt gfm_ws). Qed.
@@ -100,36 +75,24 @@ Theorem C14_filter_clean : forall s i, disallowed_at (skipn i (gfm_filter s)) = 
 Proof. exact (filter_clean_positions gfm_ws gfm_ws_amp). Qed.
 Print Assumptions C14_filter_clean.
 
-Theorem C14_filter_clean_narrow : forall s i, disallowed_at_narrow (skipn i (gfm_filter_narrow s)) = false.
-Proof. exact (filter_clean_positions narrow_ws narrow_ws_amp). Qed.
-Print Assumptions C14_filter_clean_narrow.
-
 Theorem C14_filter_idempotent : forall s, gfm_filter (gfm_filter s) = gfm_filter s.
 Proof. exact (filter_idempotent gfm_ws gfm_ws_amp). Qed.
 Print Assumptions C14_filter_idempotent.
 
-(* on the code's own output a GFM-disallowed tag can survive (known finding) *)
-Definition C14_block_clean_full_statement : Prop :=
-  forall s o, tagfilter_block s = Ok o -> any_disallowed o = false.
-
-Theorem C14_block_clean_refuted : exists s o, tagfilter_block s = Ok o /\ any_disallowed o = true.
-Proof. exact filter_clean_gfm_refuted. Qed.
-Print Assumptions C14_block_clean_refuted.
-
-Theorem C14_block_clean_partial : forall s o, no_vt_ff s = true ->
-  tagfilter_block s = Ok o -> any_disallowed o = false.
-Proof. exact block_clean_partial. Qed.
-Print Assumptions C14_block_clean_partial.
+(* on the code's own output: no position begins a disallowed tag *)
+Theorem C14_block_clean : forall s o, tagfilter_block s = Ok o -> any_disallowed o = false.
+Proof. exact block_clean. Qed.
+Print Assumptions C14_block_clean.
 
 (* ---- the option cascade of render_html_block / render_html_inline *)
 Theorem C14_block_cascade : forall lit,
-  html_block_payload false true true lit = Ok (gfm_filter_narrow lit) /\
+  html_block_payload false true true lit = Ok (gfm_filter lit) /\
   html_block_payload false true false lit = Ok lit.
 Proof. exact block_payload_exact. Qed.
 Print Assumptions C14_block_cascade.
 
 Theorem C14_inline_cascade : forall lit,
-  html_inline_payload false true true lit = Ok (lt_escape_first_ws narrow_ws lit) /\
+  html_inline_payload false true true lit = Ok (lt_escape_first lit) /\
   html_inline_payload false true false lit = Ok lit.
 Proof. exact inline_cascade. Qed.
 Print Assumptions C14_inline_cascade.
@@ -141,14 +104,28 @@ Theorem C14_option_irrelevant : forall escape_ unsafe_ lit, escape_ || negb unsa
 Proof. exact payload_option_irrelevant. Qed.
 Print Assumptions C14_option_irrelevant.
 
-(* non-vacuity: the partial theorems' hypothesis is met by an input on which the filter acts, and the
-   filter does act there *)
+(* non-vacuity: the filter acts, and on names in mixed case, closing tags and SLASH GT only *)
 Example C14_example :
   let s := B "<div>
 <TiTlE>x</title >
 <xmp/><titles><script" in
-  no_vt_ff s = true /\
   tagfilter_block s = Ok (B "<div>
 &lt;TiTlE>x&lt;/title >
 &lt;xmp/><titles><script").
+Proof. vm_compute; reflexivity. Qed.
+
+(* the witnesses of the repaired defect C14-a (tagfilter_vt_ff), which refuted the three statements
+   above before the repair, are neutralised now: LT title FF GT (vtff_witness) and LT script VT GT *)
+Example C14_vtff_witness_tagfilter : tagfilter vtff_witness = Ok true.
+Proof. vm_compute. reflexivity. Qed.
+
+Example C14_vtff_witness_block :
+  tagfilter_block vtff_witness = Ok (lt_entity ++ tl vtff_witness) /\
+  any_disallowed (lt_entity ++ tl vtff_witness) = false.
 Proof. split; vm_compute; reflexivity. Qed.
+
+Example C14_vt_witness_block :
+  let s := [x3c; x73; x63; x72; x69; x70; x74; x0b; x3e] in   (* LT script VT GT *)
+  tagfilter s = Ok true /\ tagfilter_block s = Ok (lt_entity ++ tl s) /\
+  html_inline_payload false true true s = Ok (lt_entity ++ tl s).
+Proof. repeat split; vm_compute; reflexivity. Qed.
